@@ -60,6 +60,11 @@ Ltac pos_sqrt :=
       | _ : 0 < s |- _ => fail
       | _ => assert (0 < s) by lra; assert (e <> 0) by nra
       end
+  | H : 0 <= _ + ?s, Hss : ?s * ?s = ?e |- _ =>
+      lazymatch goal with
+      | _ : 0 < s |- _ => fail
+      | _ => assert (0 < s) by lra; assert (e <> 0) by nra
+      end
   end.
 Definition plane_res (a : V4 R) (x : V3 R) : R := let '(a0,a1,a2,a3) := a in let '(x0,x1,x2) := x in a0*x0 + a1*x1 + a2*x2 + a3.
 Definition pn (a : V4 R) : V3 R := let '(a0,a1,a2,_) := a in (a0,a1,a2).
@@ -69,7 +74,7 @@ Ltac unf2 := unfold plane_res, pn, scale6, on in *; unf.
 
 (* ---------- equality: same oriented line under positive rescaling ---------- *)
 Theorem C19_eq_positive_rescaling : forall (L : V6 R) (k : R), 0 < k ->
-  0 < pc_eq_0 Rops L (scale6 k L) -> 0 < pc_eq_1 Rops L (scale6 k L) ->
+  0 <= pc_eq_0 Rops L (scale6 k L) -> 0 <= pc_eq_1 Rops L (scale6 k L) ->
   tr_eq_res Rops L (scale6 k L) = 0 /\ tr_eq_res Rops L (scale6 (-k) L) = 2.
 Proof.
   intros L k Hk H0 H1. destruct_tuples. unf2. abs_sqrt. pos_sqrt.
@@ -273,7 +278,7 @@ Print Assumptions C19_intersect_plane_point.
 
 (* full statement (repaired by /repo a2fbf35): lam is the parameter of the intersection point *)
 Theorem C19_intersect_plane_lam : forall (L : V6 R) (a : V4 R),
-  is_line L -> 0 < pc_ip_0 Rops L a -> 0 < pc_ip_1 Rops L a ->
+  is_line L -> 0 < pc_ip_0 Rops L a -> 0 <= pc_ip_1 Rops L a ->
   tr_point Rops L (tr_ip_lam Rops L a) = tr_ip_p Rops L a /\
   tr_ip_lam Rops L a = dot3 Rops (vsub3 Rops (tr_ip_p Rops L a) (tr_pp Rops L)) (lw L) / sqrt (normsq3 Rops (lw L)).
 Proof.
@@ -347,8 +352,8 @@ Example C19_c_nonvacuous :
   let L := (0,0,0,1,0,0) in let M := (1,0,0,0,1,0) in let N := (0,-1,0,1,0,0) in
   is_line L /\ is_line M /\ on L (3,0,0) /\ on M (0,7,1) /\ cp_path L M /\ dist_path L M /\
   normsq3 Rops (lw L) <> 0 /\ normsq3 Rops (lw M) <> 0 /\
-  0 < pc_eq_0 Rops L (scale6 2 L) /\ 0 < pc_eq_1 Rops L (scale6 2 L) /\
-  0 < pc_ip_0 Rops L (-1,0,0,2) /\ 0 < pc_ip_1 Rops L (-1,0,0,2) /\
+  0 <= pc_eq_0 Rops L (scale6 2 L) /\ 0 <= pc_eq_1 Rops L (scale6 2 L) /\
+  0 < pc_ip_0 Rops L (-1,0,0,2) /\ 0 <= pc_ip_1 Rops L (-1,0,0,2) /\
   tr_distance Rops L M = 1 /\
   on N (0,0,1) /\ on M (0,0,1) /\ pc_intersects_0 Rops N M <= 0 /\ pc_distance_meet_0 Rops N M <= 0 /\
   lw (0,-2,0,2,0,0) = vscale3 Rops 2 (lw L) /\ on (0,-2,0,2,0,0) (0,0,1).
